@@ -10,7 +10,7 @@
     packed slices, counted slices and maps, and the protobuf repeated forms,
     which are skipped / merged frame by frame); the JSON / BigQuery codecs and
     scalar slices over pointer / null elements by the correspondence. *)
-From Plenc Require Import Base Varint Wire JsonAny Codec SizeProofs Registry CorrCore RoundTripBase RoundTrip Evolution.
+From Plenc Require Import Base Varint Wire JsonAny Codec SizeProofs Registry CorrCore RoundTripBase RoundTrip Evolution EvolutionDeep.
 Open Scope N_scope.
 
 (** data written for S decodes without error into S'; every field whose index
@@ -29,6 +29,59 @@ Theorem C03_evolution_partial : forall nm n fs nm' n' fs' vs prior,
         len (enc (CStruct nm n fs) (VStruct vs) [])).
 Proof. exact evolution. Qed.
 Print Assumptions C03_evolution_partial.
+
+(** ... at any nesting depth.  [evo cw cr]: the reading codec [cr] is the
+    writing codec [cw] with fields removed / added / renamed / reordered in any
+    struct inside it - behind pointers, in counted or repeated-form slice
+    elements, in map values (same key codec), recursively; everything else is
+    unchanged.  [emerge cw cr prior v] is the merge written out for the pair:
+    shared indexes receive the (recursively evolved) written value, everything
+    else in the target keeps its prior value.  Decoding succeeds, consumes the
+    whole input and yields exactly that. *)
+Theorem C03_evolution_any_depth_partial : forall nm n fs nm' n' fs' v prior,
+  rt_ok (CStruct nm n fs) -> evo (CStruct nm n fs) (CStruct nm' n' fs') ->
+  wfv (CStruct nm n fs) v -> fits (CStruct nm n fs) v ->
+  dec (CStruct nm' n' fs') (enc (CStruct nm n fs) v []) WTLength prior
+  = Ok (emerge (CStruct nm n fs) (CStruct nm' n' fs') prior v, len (enc (CStruct nm n fs) v [])).
+Proof. exact evolution_any_depth. Qed.
+Print Assumptions C03_evolution_any_depth_partial.
+
+(** the same for every codec of the fragment, also as a field of any reading struct *)
+Theorem C03_evolution_deep_partial : forall cw cr, rt_ok cw -> evo cw cr ->
+  (top_ok cw -> DecOn cw (dec cr) (emerge cw cr)) /\ EFT cw cr.
+Proof. intros cw cr. apply evolution_deep. Qed.
+Print Assumptions C03_evolution_deep_partial.
+
+(** non-vacuity: fields removed, added and reordered two levels down *)
+Example C03_deep_ex :
+  let innerW := CStruct [] 3 [mkfld 0 1 [] (CInt 64); mkfld 1 2 [] CString; mkfld 2 3 [] CBool] in
+  let innerR := CStruct [] 3 [mkfld 0 3 [] CBool; mkfld 1 9 [] CF64; mkfld 2 1 [] (CInt 64)] in
+  let w := CStruct [] 2 [mkfld 0 1 [] (CSliceLen innerW); mkfld 1 2 [] (CMap CString (CPtr innerW))] in
+  let r := CStruct [] 2 [mkfld 0 2 [] (CMap CString (CPtr innerR)); mkfld 1 1 [] (CSliceLen innerR)] in
+  let v := VStruct [VSlice [VStruct [VInt 5; VStr [120]; VBool true]];
+                    VMap (Some [(VStr [107], VPtr (Some (VStruct [VInt (-1); VStr []; VBool false])))])] in
+  rt_ok w /\ evo w r /\
+  unmarshal r (marshal w [] v) (zero r)
+  = Ok (VStruct [VMap (Some [(VStr [107], VPtr (Some (VStruct [VBool false; VF64 0; VInt (-1)])))]);
+                 VSlice [VStruct [VBool true; VF64 0; VInt 5]]]).
+Proof.
+  cbv zeta. split; [|split].
+  - cbn [rt_ok f_codec f_index f_slot map]. unfold bits_ok.
+    repeat match goal with
+    | |- _ /\ _ => split
+    | |- True => exact I
+    | |- NoDup _ => repeat constructor; cbn; intuition (try discriminate; try lia)
+    | |- (_ <= _ < _)%Z => lia
+    | |- (_ <= _)%Z => lia
+    | |- (_ < _)%Z => lia
+    | |- (_ < _)%nat => lia
+    | |- _ \/ _ => auto
+    | |- wire _ = _ => reflexivity
+    | |- top_ok _ => exact I
+    end.
+  - cbn. repeat split; auto; repeat constructor; cbn; intuition discriminate.
+  - vm_compute. reflexivity.
+Qed.
 
 (** an unknown field of any wire type is skipped over exactly and leaves the
     target alone, never desynchronising what follows *)
